@@ -62,7 +62,8 @@ CHECKS = {
     "C14": dict(
         test="TestC14", level="exploration", shards=16,
         tiers=dict(quick=dict(checks=80, timeout=600), thorough=dict(checks=4000, timeout=3000)),
-        rule="rapid (bucket schema, input schema) pairs: edits none/reorder/retype (all numeric wire types)/drop/add/"
+        rule="(stratified) every ordered pair (sent type, bucket type) of the ten numeric wire types x the edge values of the sent "
+             "type, written and read back; (random) rapid (bucket schema, input schema) pairs: edits none/reorder/retype (all numeric wire types)/drop/add/"
              "rename/case applied to one of 1-4 buckets of a single WriteCSM request, fixed and variable buckets, value "
              "classes min/max/0/fractions/huge; oracle: name mismatch => error and no bucket of the request changes "
              "(immediately and after the next unrelated flush); name match => values read back under the same names, "
@@ -220,7 +221,8 @@ CHECKS = {
     "C31": dict(
         test="TestC31", level="exploration", shards=16,
         tiers=dict(quick=dict(checks=5000, timeout=600), thorough=dict(checks=500000, timeout=3000)),
-        rule="rapid candle strings <1-9999><Sec|Min|H|D|W|M|Y> x timestamps (within +-25h of DST switches, year edges, "
+        rule="rapid candle strings <1-9999><Sec|Min|H|D|W|M|Y> (multiplier 1 and D favoured) x timestamps (chosen local hours 0-3, 12, "
+             "21-23 of the day before, of and after every UTC-offset transition of the zone 2009-2023 found by scanning; within +-25h of DST switches, year edges, "
              "leap day, Sunday/Monday boundaries, or uniform 1990-2040) x 8 zones; oracle: Truncate(t) <= t < Ceil(t), "
              "IsWithin(t, Truncate(t)), QueryableTimeframe divides the duration, string -> Timeframe -> "
              "TimeframeFromDuration -> string -> Timeframe keeps the duration; non-trivial = timestamp within 26h of a "
